@@ -395,4 +395,55 @@ Section Expand.
     if pruned && negb (N.eqb (otype o) ftype && N.eqb r frel)
     then [O]
     else map (fun c => length (sdedup (map f_user c))) (l_outs (expand (S (S limit)) O [] o r)).
+
+  (* ---- a traversal that is cut short ---- *)
+  (* When a branch fails (depth, condition, datastore) the pools cancel the sibling branches: what
+     each operand channel has received by then is arbitrary, the combinators run on these partial
+     contents (an exclusion whose subtract branch was cut passes its base users, an intersection
+     that lost an excludedUsers list passes the excluded user, ...).  The error normally replaces
+     the answer, but when the result limit is reached first (or the deadline expires) the partial
+     answer is returned.  may_keys over-approximates the keys such an answer can contain: every
+     key any source can send, set operators ignored. *)
+  Section KeysStep.
+    Variable dispatch : obj -> rid -> list subject.
+    Fixpoint keys_rw (o : obj) (rw : rewrite) (r : rid) {struct rw} : list subject :=
+      match rw with
+      | This =>
+          flat_map (fun t => match t_sub t with
+                             | SObj u => if N.eqb (otype u) ftype then [SObj u] else []
+                             | SWild ty => if N.eqb ty ftype then [SWild ty] else []
+                             | SSet o' r' => dispatch o' r'
+                             end) (lu_passing (lu_raw_of o r))
+      | Computed r' => dispatch o r'
+      | TTU ts c =>
+          flat_map (fun t => match t_sub t with SObj o' => dispatch o' c | _ => [] end)
+                   (lu_passing (lu_raw_of o ts))
+      | Union l | Inter l =>
+          (fix go (l : list rewrite) : list subject :=
+             match l with [] => [] | x :: l' => keys_rw o x r ++ go l' end) l
+      | Diff b s => keys_rw o b r ++ keys_rw o s r
+      end.
+  End KeysStep.
+
+  Fixpoint keys_expand (fuel : nat) (depth : nat) (visited : list atom) (o : obj) (r : rid) {struct fuel} : list subject :=
+    match fuel with
+    | O => []
+    | S f =>
+        if Nat.leb limit depth then []
+        else if existsb (atom_eqb (o, r)) visited then []
+        else
+          (if N.eqb (otype o) ftype && N.eqb r frel then [SSet o r] else []) ++
+          match find_type m (otype o) with
+          | None => []
+          | Some td =>
+              match find_rel (td_rels td) r with
+              | None => []
+              | Some rd => keys_rw (fun o' r' => keys_expand f (S depth) ((o, r) :: visited) o' r') o (rd_rw rd) r
+              end
+          end
+    end.
+
+  Definition list_users_may (pruned : bool) (o : obj) (r : rid) : list subject :=
+    if pruned && negb (N.eqb (otype o) ftype && N.eqb r frel) then []
+    else sdedup (keys_expand (S (S limit)) O [] o r).
 End Expand.
